@@ -123,16 +123,21 @@ FirstHit(maps, k) == IF maps = <<>> THEN [s |-> 0, v |-> Tomb]
 Rev(s) == [i \in 1..Len(s) |-> s[Len(s) + 1 - i]]
 Ents(tabs) == [i \in 1..Len(tabs) |-> tabs[i].ents]
 MemOrder(m) == IF Dev_MemOldestFirst THEN m ELSE Rev(m)
-LvOrder(l) == (IF Dev_L0OldestFirst THEN Ents(l[1]) ELSE Rev(Ents(l[1]))) \o Ents(l[2])
-GetResult(m, l, k) ==
-  LET inMem == \E i \in 1..Len(m) : k \in DOMAIN m[i]
-  IN IF inMem THEN FirstHit(MemOrder(m), k).v ELSE FirstHit(LvOrder(l), k).v
-
 \* newest version by sequence number over a set of entry maps
 Newest(maps, k) ==
   LET hits == {i \in 1..Len(maps) : k \in DOMAIN maps[i]}
   IN IF hits = {} THEN [s |-> 0, v |-> Tomb]
      ELSE maps[CHOOSE i \in hits : \A j \in hits : maps[i][k].s >= maps[j][k].s][k]
+\* L0 tables may overlap: the repaired code takes the hit with the highest
+\* sequence number among all L0 tables; the pinned code took the first hit in
+\* insertion order (Dev_L0OldestFirst).  Below L0 the first hit wins.
+GetResult(m, l, k) ==
+  LET inMem == \E i \in 1..Len(m) : k \in DOMAIN m[i]
+      inL0 == \E i \in 1..Len(l[1]) : k \in DOMAIN l[1][i].ents
+  IN IF inMem THEN FirstHit(MemOrder(m), k).v
+     ELSE IF inL0 THEN (IF Dev_L0OldestFirst THEN FirstHit(Ents(l[1]), k).v ELSE Newest(Ents(l[1]), k).v)
+     ELSE FirstHit(Ents(l[2]), k).v
+
 \* scan: merge of (memtable merge) and (level merge filtered of tombstones)
 ScanResult(m, l, P) ==
   LET memNoTomb == [i \in 1..Len(m) |-> Restrict(m[i], {k \in DOMAIN m[i] : m[i][k].v # Tomb})]
